@@ -129,6 +129,11 @@ pub fn reset() {
 }
 
 pub fn set_plan(path: &str, plan: Plan) {
+    sim_core::with(|w| {
+        if w.keep_events {
+            w.note(format!("handler plan {path}: pending->{:?} ready->{:?} status {}", plan.on_pending, plan.on_ready, plan.resp.code));
+        }
+    });
     HANDLER.with(|h| h.borrow_mut().plans.insert(path.to_string(), plan));
 }
 
